@@ -622,6 +622,32 @@ def callable_family(ctx):
                 if got != (want, want):
                     ctx.violation('valid-iff', case, '(validate, validateWithProfile[0]) = %r, some registered profile accepts: %r' % (got, want), KNOWN_PRED)
     impl.reset()
+    # nothing a registry does reaches another registry: a brand-new Profiles() gives the verdicts it gave before
+    battery = [('z-index', '5'), ('z-index', 'z'), ('orphans', '2'), ('width', '1.5px'), ('width', 'z'), ('color', 'red'), ('margin', '1px 2px'), ('opacity', '0.5')]
+
+    def fresh_verdicts():
+        P_ = Profiles(log=cssutils.log)
+        return [P_.validateWithProfile(n_, v_)[:2] for n_, v_ in battery]
+    before = fresh_verdicts()
+    SEQS = {
+        'removeProfile(all); addProfiles shadowing a token macro; removeProfile': lambda P_: (P_.removeProfile(all=True), P_.addProfiles([('x-a', {'x-a-p': '{int}'}, {'int': 'z', 'num': 'z'})]), P_.removeProfile('x-a')),
+        'removeProfile(all); addProfile with a new macro; removeProfile': lambda P_: (P_.removeProfile(all=True), P_.addProfile('x-b', {'x-b-p': '{x-new}'}, {'x-new': 'z'}), P_.removeProfile('x-b')),
+        'addProfile shadowing num; removeProfile': lambda P_: (P_.addProfile('x-c', {'x-c-p': '{num}'}, {'num': 'z'}), P_.removeProfile('x-c')),
+        'addProfiles shadowing length; removeProfile(all)': lambda P_: (P_.addProfiles([('x-d', {'x-d-p': '{length}'}, {'length': 'z'})]), P_.removeProfile(all=True)),
+    }
+    for name, seq in SEQS.items():
+        ctx.case(('fresh-after', name))
+        try:
+            seq(Profiles(log=cssutils.log))
+            after = fresh_verdicts()
+        except Exception as e:  # noqa
+            ctx.violation('raises', {'family': 'fresh-registry', 'sequence': name}, '%s: %s' % (type(e).__name__, e), KNOWN_PRED)
+            continue
+        if after != before:
+            diff = [(battery[i], before[i], after[i]) for i in range(len(battery)) if before[i] != after[i]]
+            ctx.violation('fresh-registry', {'family': 'fresh-registry', 'sequence': name},
+                          'a brand-new Profiles() after the sequence differs (pair, before, after): %r' % diff, KNOWN_PRED)
+    impl.reset()
 
 
 def run(ctx):
